@@ -162,6 +162,6 @@ def run(tier, seed):
         coverage["traces_validated_against_impl"] += ip["coverage"].get("traces_validated_against_impl", 0)
     except (OSError, ValueError, KeyError):
         pass
-    core.finish("C07", tier, seed, started, coverage, mism, explains, assumptions=[
+    core.finish("C07", tier, seed, started, coverage, mism, explains, wipe_replays=False, assumptions=[
         "which of the two end states a program should reach is decided by C05/C11/C13/C14/C15; here only the agreement of the gates is checked",
     ])
